@@ -524,7 +524,22 @@ func Run(c *evid.Ctx) {
 		kdev, depth, tok = 2, 6, 4
 	}
 	k.pool(types, depth) // first: the reference objects must be first acquisitions
-	k.agree(types, vers, kdev)
+	// pack types with a write/read pair that the factory does not create (no pool for them)
+	all := append([]utype{}, types...)
+	for _, extra := range []udp.UdpPack{udp.NewUdpTxResultSetPack()} {
+		known := false
+		for _, t := range types {
+			if t.tag == extra.GetPackType() {
+				known = true
+			}
+		}
+		if !known {
+			rt := reflect.TypeOf(extra).Elem()
+			all = append(all, utype{extra.GetPackType(), rt, rt.Name()})
+		}
+	}
+	c.Cov["pack_types_outside_the_factory"] = len(all) - len(types)
+	k.agree(all, vers, kdev)
 	k.masking(tok)
 	c.Count("evaluations", k.evals)
 	c.Count("distinct_nontrivial", k.nontriv)
